@@ -660,6 +660,12 @@ fn on_send(m: &mut Mdl, pre: &Mdl, ap: &AP, c: &Call, r: &mut Rules, exp_rel: &m
         AP::Ack { kind: AckKind::Pubrel, pid, .. } => {
             // manual PUBREL for an exchange the model already moved to Rel: accepted means
             // transmitted or (not connected) queued in the store
+            // C11 / C06: the PUBREL of a persistent session is accepted in every connection status (transmitted
+            // or queued) - the only refusal the statement allows is "not connected and not persistent"
+            if c.has_error() && pre.persistent && matches!(m.ids.get(pid), Some(&Owner::RelOwed)) && !c.errors().contains(&MqttError::PacketTooLarge) {
+                r.viol("c11.pubrel-refused-persistent", pre, format!("the PUBREL the application owes for id {pid} on a persistent session is refused in status {:?}: {}", pre.st, c.describe()));
+                r.viol("c06.pubrel-refused-persistent", pre, format!("the PUBREL the application owes for id {pid} on a persistent session is refused in status {:?}: {}", pre.st, c.describe()));
+            }
             if !c.has_error() && matches!(m.ids.get(pid), Some(&Owner::RelOwed) | Some(&Owner::Rel)) {
                 m.ids.insert(*pid, Owner::Rel);
                 r.label("pubrel.manual");
